@@ -39,7 +39,7 @@ CLAIMED = {
             "asserts it is only called inside [0,n); exactly-once and visibility are checked when the call returns; memory safety of the scheduler is an obligation.",
             "DESIGN.md 3/C01",
             "n in -2..5 (blocks: -1..10, block sizes 1,3,4); all 8 index types; 1 and 2 tasking threads (3 thorough) on one deterministic schedule, plus every schedule with "
-            "<= 1 preemption (2 thorough) for 2 threads; nested loops 0..2 x 0..2; TBB and OpenMP back ends NOT checked (closed libraries); sequentially consistent memory; n >= 2^31 outside",
+            "<= 1 preemption (2 thorough) for 2 threads; nested loops 0..2 x 0..2, and 8/12 x 3/6 with the per-thread pipe shrunk to 2 slots (hook RKCOMMON_VERIF_PIPESIZE_LOG2) so the pipe-full fallback runs; TBB and OpenMP back ends NOT checked (closed libraries); sequentially consistent memory; n >= 2^31 outside",
             "symbolic execution of LLVM IR with z3 and bounded schedule exploration (vp/llpath.py), native sanitizer replay"),
     "C02": ("model_checking",
             "Symbolic execution of schedule() and AsyncTask on the internal (enkiTS) and serial back ends (vp/llpath.py thread model, bounded schedule exploration): "
@@ -51,10 +51,11 @@ CLAIMED = {
             "symbolic execution of LLVM IR with z3 and bounded schedule exploration (vp/llpath.py), native sanitizer replay"),
     "C13": ("model_checking",
             "Symbolic execution of initTaskingSystem/numTaskingThreads on the internal (enkiTS) and serial back ends (vp/llpath.py): reported count, number of worker "
-            "threads actually created, re-initialisation, and the maximum number of simultaneously active parallel_for bodies under explored schedules.",
+            "threads actually created, re-initialisation, and the maximum number of simultaneously active parallel_for bodies under explored schedules; the TBB and OpenMP configurations of tasking_system_init.cpp with the library calls replaced by contract models.",
             "DESIGN.md 3/C13",
             "n in {-1,0,1,2,3}, re-initialisation with 1..3; hardware_concurrency() fixed at 3; active-body bound for 1-2 threads (3 thorough) with <= 1 preemption (2 thorough); "
-            "TBB global_control and OpenMP NOT checked (closed libraries)",
+            "TBB and OpenMP configurations: only the reporting half (tasking_system_init.cpp with tbb::global_control / omp_* replaced by their documented contracts, every n in 1..1000, 3 / 5 re-initialisations); "
+            "how many threads those closed libraries really use is NOT checked",
             "symbolic execution of LLVM IR with z3 and bounded schedule exploration (vp/llpath.py), native sanitizer replay"),
     "C15": ("model_checking",
             "Bounded symbolic checking of the real DataStreaming.cpp/.h code: FixedBufferWriter::write/reserve and BufferReader::read/getView "
@@ -125,13 +126,13 @@ CLAIMED = {
             "per-observer pending-flag reference, with dangling pointers as heap obligations (use after free); three fixed lifecycles with symbolic notify/poll patterns; TimeStamp from a symbolic "
             "counter value; two real threads x (create+renew) under every schedule with bounded preemptions: values distinct, per-thread increasing.",
             "DESIGN.md 3/C19",
-            "histories of 4 (quick) / 6 (thorough) actions, 1 observable, <= 3 observers; notify/poll patterns of length 2 / 3; 2 threads, <= 2 / 4 preemptions, sequential consistency; counter wrap at 2^64 and copying Observers outside",
+            "histories of 4 (quick) / 6 (thorough) actions, 1 observable, <= 3 observers; notify/poll patterns of length 2 / 3; 2 threads, <= 2 / 4 preemptions (atomic loads included as preemption points), sequential consistency; counter wrap at 2^64 and copying Observers outside",
             "symbolic execution of LLVM IR with z3 and bounded schedule exploration (vp/llpath.py), native sanitizer replay"),
     "C20": ("model_checking",
             "cbmc bounded model checking of SaveImage.h for all six writers and every image size up to the bound with symbolic pixel values: header format string and dimensions, payload length, "
             "decoded pixels (row flip, channel selection), file closed, and no read outside the width x height pixels given (exact heap bounds). stdio is replaced by a capturing model.",
             "DESIGN.md 3/C20",
-            "image sizes 1..2 (quick) / 1..3 (thorough) in each dimension; tracing::saveLog and event recording NOT covered (std::ofstream/unordered_map/chrono internals cannot be encoded within reach)",
+            "image sizes 1..2 (quick) / 1..3 (thorough) in each dimension; eight two-image histories (second call independent of the first); tracing::saveLog and event recording NOT covered (std::ofstream/unordered_map/chrono internals cannot be encoded within reach)",
             "bounded model checking (cbmc) of LLVM-IR-derived C with an stdio capture model, ASan replay"),
     "C03": ("model_checking",
             "Two units over the real AsyncLoop code. (1) vp/llpath.py: the real std::thread / std::mutex / std::condition_variable code executed on the engine's thread model, scenario "
@@ -153,17 +154,17 @@ CLAIMED = {
     "C10": ("model_checking",
             "Symbolic execution (vp/llpath.py) of the real FlatMap<int,int> code (std::vector, std::stable_partition as real header code): one operation (operator[] write/read-insert, at, erase, clear, contains) "
             "with a symbolic key from an arbitrary valid state of N entries with symbolic distinct keys and values, compared with an insertion-ordered reference map incl. iteration and at_index order - an "
-            "inductive step covering histories of any length within the size bound; ParameterizedObject scenarios with symbolic values (exact/wrong-type reads, default, query flag, reset, type change, removal).",
+            "inductive step covering histories of any length within the size bound; ParameterizedObject scenarios and all bounded histories (set int/float, remove, typed reads, hasParam, reset) with symbolic values against a reference list (order, query flags, results).",
             "DESIGN.md 3/C10",
-            "state size N <= 5; int keys/values (all 2^32 each); ParameterizedObject: three fixed scenarios with names 'a','b'; allocation never fails",
+            "state size N <= 5; int keys/values (all 2^32 each); ParameterizedObject: three fixed scenarios plus every history of 3 actions over names a,b,c (thorough: 4 actions over a,b), int/float values; allocation never fails",
             "symbolic execution of LLVM IR with z3 (vp/llpath.py), inductive one-step harness with reference model, native sanitizer replay"),
     "C14": ("model_checking",
             "cbmc bounded model checking of aligned_allocator<T,64>::allocate/deallocate for every 64-bit element count (n=0, length_error beyond max_size without an allocation call, exact "
             "n*sizeof(T) bytes without wrap, bad_alloc on null, aligned and usable result), alignedMalloc/alignedFree over every power-of-two alignment 1..4096 with posix_memalign by contract "
             "(its precondition is an obligation), and AlignedVector<int> operations (push_back/resize/reserve/shrink_to_fit/swap/assign) from states of N elements: data() aligned, elements preserved.",
             "DESIGN.md 3/C14",
-            "non-TBB back end only (TBB scalable allocator is a closed library); posix_memalign contract stub; alignment judged on the offset within the returned block; vector states N <= 2 (quick) / 3",
-            "bounded model checking (cbmc) of LLVM-IR-derived C with contract stubs"),
+            "non-TBB back end by cbmc with a posix_memalign contract stub; TBB configuration by llpath with tbbmalloc replaced by its documented contract (13 alignments x 14 sizes, 3 live blocks; tbbmalloc internals outside); alignment judged on the offset within the returned block; vector states N <= 2 (quick) / 3",
+            "bounded model checking (cbmc) of LLVM-IR-derived C with contract stubs; symbolic execution of LLVM IR with z3 (vp/llpath.py) for the TBB configuration"),
 }
 
 NOT_YET = "check not yet built (work in progress, see DESIGN.md section 7)"
